@@ -10,6 +10,7 @@ Decided (structural):
  (round 4, shared) builders.check_all; operator search kinds from typed signatures; the clause
    translation table of the macro (bare true/false, ==, != ... per Clause variant; with C14);
    Conde::from_array keeps one branch per listed goal.
+ (round 5, shared with C05) dfs { .. } hands its body on as the same goal kind.
 """
 import mirlib
 import streams
@@ -285,6 +286,11 @@ def run(ctx, fb, cfg):
 
     builders.check_all(ctx, lib, R + "K6.builders")
     streams.check_operator_kinds(ctx, lib, R + "K10.operator-search-kind")
+    # `dfs { .. }` hands its body on as the same goal kind (Succeed / Fail / Breakpoint / Dynamic): a body that
+    # Conj::new folded to Fail must stay Fail (with C05)
+    import C05
+
+    C05.check_dfs_operator(ctx, lib, R + "K5.dfs-operator")
     # bare `true` / `false` clauses and the other clause kinds expand to the goals the reference semantics
     # gives them (template table shared with C14)
     if cfg == "lib-default":
